@@ -1,9 +1,15 @@
-"""C04 -- decided over the differ model; see harness/differ_props.py and DESIGN.md section 6."""
-from harness import differ_props
+"""C04 -- decided over the differ model and the generated patcher; see harness/differ_props.py and DESIGN.md section 6."""
+from harness import differ_props, patcher_corr
+
+
+def extra(run, rng, pinfo):
+    if not pinfo.get("build_ok"):
+        return []
+    return [patcher_corr.run_corr("C04" + "p", rng, 120 if run.tier == "quick" else 1200)]
 
 
 def main(run):
-    differ_props.main(run, "C04")
+    differ_props.main(run, "C04", extra_corr=extra)
 
 
 def replay(run, path):
